@@ -12,7 +12,7 @@ from mc.core import Acc, Hang, horizon
 ID = "C18"
 ZONES = ("America/New_York", "Asia/Kolkata", "Australia/Lord_Howe", "Pacific/Chatham")
 RULE = ("E-INPUT x configurations: calendar operations (7 units x floor/ceil/round/offset/range) on every day of 2020-2021 x 2 "
-        "times of day and on every minute 00:00-04:59 of the five 2021 DST transition dates of the zones; TimeScale mapping / "
+        "times of day and on every minute 00:00-04:59 of the five 2021 DST transition dates of the zones, on every month boundary 1900-2100 (day/week/month/year units); TimeScale mapping / "
         "invert for instant pairs, ticks(m) and nice(m) over start instants x span ladder x counts, and whole SVG/TikZ exports "
         "of datetime datasets - each executed under UTC and under America/New_York, Asia/Kolkata, Australia/Lord_Howe and "
         "Pacific/Chatham (process TZ switched with tzset), outputs compared byte for byte with the UTC run. "
@@ -40,6 +40,12 @@ def cal_instants(tier):
     for day in DST_DAYS:
         for m in range(0, 300):
             out.append(("dst", day + timedelta(minutes=m, seconds=(m * 7) % 60)))
+    # every month boundary of two centuries (zones had one-off clock changes at such instants, e.g. 1941-10-01 in India)
+    for y in range(1900, 2101):
+        for mo in range(1, 13):
+            out.append(("month", datetime(y, mo, 1)))
+            if (y + mo) % 6 == 0:
+                out.append(("month", datetime(y, mo, 1) - timedelta(hours=11, minutes=30)))
     return out
 
 
@@ -89,8 +95,8 @@ def run_case(case):
 def all_cases(tier, seed):
     cases = []
     for tag, t in cal_instants(tier):
-        for u in UNITS:
-            cases.append((tag, ("cal", u, t)))
+        for u in (UNITS if tag != "month" else ("day", "week", "month", "year")):
+            cases.append((tag if tag != "month" else "day", ("cal", u, t)))
     ins = [datetime(1969, 12, 31, 23, 59, 59, 999000), datetime(1970, 1, 1), datetime(2000, 2, 29, 12), datetime(2021, 3, 14, 2, 30),
            datetime(2021, 11, 7, 1, 30), datetime(2021, 4, 4, 1, 45), datetime(2021, 10, 3, 2, 15), datetime(2021, 9, 26, 2, 50),
            datetime(2038, 1, 19, 3, 14, 8), timegrid.seeded_start(seed)]
